@@ -99,3 +99,22 @@ Definition set_trainer (c : config RN) (t : trainer) : config RN :=
 (* folding a one-step kernel over a train of observations given newest first (None before the first observation) *)
 Fixpoint fold_kernel (f : bool -> option R -> R) (obs : list bool) : option R :=
   match obs with [] => None | o :: r => Some (f o (fold_kernel f r)) end.
+(* per-sample reward signals: the signal given to sample b alone *)
+Definition signal_of_sample (b : nat) (sg : signal RN) : signal RN :=
+  match sg with
+  | SigTensor _ sv g => SigTensor RN [nth b sv 0] g
+  | other => other
+  end.
+Definition sample_ps (b : nat) (inps : list (list (bool * bool) * signal RN)) : list ((bool * bool) * signal RN) :=
+  map (fun i => (nth b (fst i) (false, false), signal_of_sample b (snd i))) inps.
+(* well-formed batched inputs: B samples per step, per-sample signals of length B *)
+Definition inputs_ok_ps (B : nat) (inps : list (list (bool * bool) * signal RN)) : Prop :=
+  Forall (fun i => length (fst i) = B /\ match snd i with SigTensor _ sv _ => length sv = B | _ => True end) inps.
+(* history with a per-sample signal (a one-element tensor) and the scale *)
+Definition withsig_ps (hx : list ((bool * bool) * (R * R))) : list ((bool * bool) * signal RN) :=
+  map (fun x => (fst x, SigTensor RN [fst (snd x)] (snd (snd x)))) hx.
+(* batched history without signal: steps = per step the list of the samples' (pre, post) bits *)
+Definition nosig_batch (steps : list (list (bool * bool))) : list (list (bool * bool) * signal RN) :=
+  map (fun pqs => (pqs, SigNone RN)) steps.
+Definition hist_of (b : nat) (steps : list (list (bool * bool))) : list (bool * bool) :=
+  map (fun pqs => nth b pqs (false, false)) steps.
